@@ -185,7 +185,7 @@ func (c *core) OnDecodeError(_ *gortsplib.ServerHandlerOnDecodeErrorCtx) {
 	c.ts.decodeErrs++
 	c.ts.mu.Unlock()
 }
-func (c *core) OnPacketsLost(_ *gortsplib.ServerHandlerOnPacketsLostCtx)             {}
+func (c *core) OnPacketsLost(_ *gortsplib.ServerHandlerOnPacketsLostCtx)           {}
 func (c *core) OnStreamWriteError(_ *gortsplib.ServerHandlerOnStreamWriteErrorCtx) {}
 
 type mDescribe struct{ c *core }
